@@ -557,7 +557,9 @@ class List(list, base.Symbolic, pg_typing.CustomTyping):
 
   def __getstate__(self) -> Any:
     """Customizes pickle.dump."""
-    return dict(value=list(self), kwargs=self._init_kwargs())
+    # NOTE: the members are pickled in their symbolic form (an inferential
+    # member is not replaced by the value it currently resolves to).
+    return dict(value=list(self.sym_values()), kwargs=self._init_kwargs())
 
   def __setstate__(self, state) -> None:
     """Customizes pickle.load."""
